@@ -8,6 +8,91 @@ using namespace mon;
 using namespace c18;
 namespace IM = IMATH_NAMESPACE;
 
+// ---------------------------------------------------------------- termination probe + watchdog
+#include <unistd.h>
+namespace c18
+{
+std::atomic<uint32_t>        g_sampler_epoch (1);
+static std::atomic<uint32_t> g_slots[1024];
+static std::atomic<unsigned> g_next_slot (0);
+
+std::atomic<uint32_t>&
+sampler_slot ()
+{
+    thread_local unsigned s = g_next_slot.fetch_add (1) % 1024;
+    return g_slots[s];
+}
+
+static std::atomic<int>  g_stage[2];
+static std::atomic<bool> g_done[2];
+static volatile double   g_sink;
+static const char* const STAGES[5] = {"(none)", "solidSphereRand", "hollowSphereRand", "gaussRand", "gaussSphereRand"};
+
+template <class R>
+static void
+probe_thread (int gi)
+{
+    static const unsigned long seeds[] = {0ul, 1ul, 12345ul, 0xfffffffful, ~0ul};
+    double acc = 0;
+    for (unsigned long seed: seeds)
+    {
+        R g (seed);
+        for (int k = 0; k < 64; ++k)
+        {
+            g_stage[gi] = 1;
+            acc += IM::solidSphereRand<V2f> (g)[0] + IM::solidSphereRand<V3d> (g)[0] + IM::solidSphereRand<V4f> (g)[0];
+            g_stage[gi] = 2;
+            acc += IM::hollowSphereRand<V2d> (g)[0] + IM::hollowSphereRand<V3f> (g)[0] + IM::hollowSphereRand<V4d> (g)[0];
+            g_stage[gi] = 3;
+            acc += IM::gaussRand (g);
+            g_stage[gi] = 4;
+            acc += IM::gaussSphereRand<V3f> (g)[0];
+        }
+    }
+    g_sink     = acc;
+    g_done[gi] = true;
+}
+
+static void
+watchdog_thread ()
+{
+    for (;;)
+    {
+        std::this_thread::sleep_for (std::chrono::seconds (1));
+        uint32_t now = g_sampler_epoch.fetch_add (1) + 1;
+        for (auto& s: g_slots)
+        {
+            uint32_t v = s.load (std::memory_order_relaxed);
+            if (v && now - v > 60)
+            {
+                std::fprintf (stderr, "c18: a solidSphereRand/hollowSphereRand/gaussRand/gaussSphereRand call did not return within 60 s (rejection loop does not terminate)\n");
+                std::fflush (stderr);
+                _exit (3);
+            }
+        }
+    }
+}
+
+const ProbeResult&
+sampler_probe ()
+{
+    static ProbeResult    res;
+    static std::once_flag once;
+    std::call_once (once, [] {
+        std::thread (probe_thread<Rand32>, 0).detach ();
+        std::thread (probe_thread<Rand48>, 1).detach ();
+        for (int ms = 0; ms < 20000 && !(g_done[0] && g_done[1]); ++ms) std::this_thread::sleep_for (std::chrono::milliseconds (1));
+        for (int g = 0; g < 2; ++g)
+        {
+            res.hang[g]  = !g_done[g];
+            res.stage[g] = STAGES[g_stage[g].load ()];
+        }
+        std::thread (watchdog_thread).detach ();
+    });
+    return res;
+}
+} // namespace c18
+
 static const unsigned N_COMBO = 12;
 static const char* const COMBO_NAMES[N_COMBO] = {"V2f.Rand32", "V3f.Rand32", "V4f.Rand32", "V2d.Rand32", "V3d.Rand32", "V4d.Rand32",
                                                  "V2f.Rand48", "V3f.Rand48", "V4f.Rand48", "V2d.Rand48", "V3d.Rand48", "V4d.Rand48"};
@@ -15,7 +100,7 @@ static const unsigned ROUNDS = 4;
 
 struct Tally
 {
-    uint64_t n_combo[N_COMBO] = {0}, n_mode[3] = {0, 0, 0}, n_draws = 0, n_on_boundary = 0;
+    uint64_t n_combo[N_COMBO] = {0}, n_mode[3] = {0, 0, 0}, n_draws = 0, n_on_boundary = 0, n_skipped = 0;
     struct W { double r = -1e300; uint64_t idx = 0, state = 0; } solid[N_COMBO], hollow[N_COMBO];
 };
 
@@ -37,6 +122,8 @@ template <class Vec, class R>
 static void
 run_combo (Ctx& c, uint64_t idx, unsigned combo, Tally& T)
 {
+    if (sampler_probe ().hang[Gen<R>::index]) { ++T.n_skipped; return; }
+    SamplerGuard guard;
     Rng      r    = c.rng (idx);
     unsigned mode = (unsigned) ((idx / N_COMBO) % 4); // 0,1 random seed; 2 extreme seed; 3 injected state
     Slot<R>  sg, st;
@@ -99,6 +186,7 @@ static void
 sub_samplers (Ctx& c, uint64_t b, uint64_t e)
 {
     Tally T;
+    report_probe (c, b);
     for (uint64_t idx = b; idx < e; ++idx)
     {
         unsigned combo = (unsigned) (idx % N_COMBO);
@@ -131,8 +219,9 @@ sub_samplers (Ctx& c, uint64_t b, uint64_t e)
     c.cls ("seed_extreme", T.n_mode[1]);
     c.cls ("state_injected", T.n_mode[2]);
     c.cls ("solid_length2_at_or_above_1", T.n_on_boundary);
+    if (T.n_skipped) c.cls ("skipped_generator_makes_samplers_hang", T.n_skipped);
 }
-MON_SUB (sub_samplers, "sphere_gauss_samplers", 2400000, 120000000)
+MON_SUB (sub_samplers, "sphere_gauss_samplers", 2400000, 240000000)
     .req ({"V2f.Rand32", "V3f.Rand32", "V4f.Rand32", "V2d.Rand32", "V3d.Rand32", "V4d.Rand32", "V2f.Rand48", "V3f.Rand48", "V4f.Rand48", "V2d.Rand48", "V3d.Rand48", "V4d.Rand48", "seed_random",
            "seed_extreme", "state_injected"})
     .chunked (4096)
